@@ -94,7 +94,7 @@ class RelaxationFactory(object):
             ep = 0
         else:
             e2 = np.sqrt(tg/T2)
-            ep = np.sqrt((1/2) * (e2**2 - e1**2/2))
+            ep = np.sqrt(np.maximum((1/2) * (e2**2 - e1**2/2), 0))
 
         W = np.random.normal(0, np.sqrt(Dt))
         I = np.random.normal(0, np.sqrt(V(Dt)))
@@ -154,7 +154,7 @@ class SingleQubitGateFactory(object):
             ep = 0
         else:
             e2 = np.sqrt(tg/T2)
-            ep = np.sqrt((1/2) * (e2**2 - e1**2/2))
+            ep = np.sqrt(np.maximum((1/2) * (e2**2 - e1**2/2), 0))
 
         """ 1) UNITARY CONTRIBUTION """
 
@@ -439,7 +439,7 @@ class CRFactory(object):
             ep_ctr = 0
         else:
             e2_ctr = np.sqrt(tg/T2_ctr)
-            ep_ctr = np.sqrt((1/2) * (e2_ctr**2 - e1_ctr**2/2))
+            ep_ctr = np.sqrt(np.maximum((1/2) * (e2_ctr**2 - e1_ctr**2/2), 0))
 
         if T1_trg == 0:
             e1_trg = 0
@@ -450,7 +450,7 @@ class CRFactory(object):
             ep_trg = 0
         else:
             e2_trg = np.sqrt(tg/T2_trg)
-            ep_trg = np.sqrt((1/2) * (e2_trg**2 - e1_trg**2/2))
+            ep_trg = np.sqrt(np.maximum((1/2) * (e2_trg**2 - e1_trg**2/2), 0))
 
         U = np.array(
             [[np.cos(theta/2), -1J*np.sin(theta/2) * np.exp(-1J * phi), 0, 0],
